@@ -362,6 +362,7 @@ func c06Sequence(r *Run, idx int) {
 	nkeys := 2 + rng.Intn(5)
 	steps := 40
 	var kinds strings.Builder
+	var staleFor time.Duration // how long the cached clock has not been refreshed (virtual time)
 	pickTTL := func() time.Duration {
 		switch rng.Intn(4) {
 		case 0:
@@ -430,14 +431,24 @@ func c06Sequence(r *Run, idx int) {
 			d := time.Duration(100+rng.Intn(3000)) * time.Millisecond
 			x.wait()
 			x.st.VerifShiftClock(d, true)
-			// a healthy ticker refreshes the cached clock every second; a stale cached clock is C03's business
-			x.st.VerifRefreshClock()
-			x.note("time +%v", d)
+			// a healthy ticker refreshes the cached clock once per second: between two ticks it is up to a
+			// second old. Sub-second steps may therefore leave it stale (cumulatively < 0.9 s); longer
+			// staleness is C03's business. The oracle stays exact: reads consult the precise clock whenever
+			// a deadline is within 30 s of the cached one.
+			if staleFor+d < 900*time.Millisecond && rng.Intn(2) == 0 {
+				staleFor += d
+				x.note("time +%v (cached clock not refreshed, %v old)", d, staleFor)
+			} else {
+				staleFor = 0
+				x.st.VerifRefreshClock()
+				x.note("time +%v", d)
+			}
 			kinds.WriteByte('t')
 			x.probe("after time step")
 		case op < 90:
 			x.wait()
 			x.st.VerifTick()
+			staleFor = 0
 			x.note("tick")
 			kinds.WriteByte('T')
 			x.probe("after tick")
